@@ -45,8 +45,27 @@ def decode_cols(val, names):
 
 
 def impl_values(arr):
-    a = np.asarray(arr, dtype=float).reshape(-1)
-    return [None if math.isnan(x) else Fr(float(x)) for x in a]
+    a = np.asarray(arr).reshape(-1)
+    if a.dtype.kind in "iu":
+        return [Fr(int(x)) for x in a]
+    return [None if math.isnan(x) else Fr(float(x)) for x in np.asarray(a, dtype=float)]
+
+
+DTYPES = ["f8", "f8", "f8", "f4", "i8", "i4", "i1", "u1", "u2", "u8"]
+
+
+def draw(rng, dt):
+    """an exactly representable value of the numeric type"""
+    if dt[0] == "f":
+        return Fr(rng.randint(-64, 64), 8)
+    info = np.iinfo(dt)
+    if rng.random() < 0.3:
+        return rng.choice([info.min, info.max, 0, min(info.max, 200)]) if info.max <= 2 ** 32 else rng.choice([0, 2 ** 40, -(2 ** 40) if info.min < 0 else 7])
+    return rng.randint(max(info.min, -100), min(info.max, 100))
+
+
+def np_col(vals, dt):
+    return np.array([float(v) if dt[0] == "f" else int(v) for v in vals], dtype=dt)
 
 
 def gen_table(rng):
@@ -55,12 +74,15 @@ def gen_table(rng):
     ns, nr = rng.randint(0, 4), rng.randint(0, 4)
     if rng.random() < 0.6:
         nr = ns
-    val = lambda: Fr(rng.randint(-64, 64), 8)  # noqa: E731
-    src = [(n, [val() for _ in range(ns)]) for n in base if rng.random() < 0.75]
-    ref = [(n, [val() for _ in range(nr)]) for n in base if rng.random() < 0.75]
+    dts = {"src": {n: rng.choice(DTYPES) for n in base}, "ref": {n: rng.choice(DTYPES) for n in base}}
+    for n in base:
+        if rng.random() < 0.6:
+            dts["ref"][n] = dts["src"][n]
+    src = [(n, [draw(rng, dts["src"][n]) for _ in range(ns)]) for n in base if rng.random() < 0.75]
+    ref = [(n, [draw(rng, dts["ref"][n]) for _ in range(nr)]) for n in base if rng.random() < 0.75]
     rng.shuffle(src)
     rng.shuffle(ref)
-    c = {"kind": "table", "src_rows": ns, "ref_rows": nr, "src": src, "ref": ref, "src_idx": None, "ref_idx": None}
+    c = {"kind": "table", "src_rows": ns, "ref_rows": nr, "src": src, "ref": ref, "src_idx": None, "ref_idx": None, "dtypes": dts}
     # tables may carry a row index map (reordering / filtering view of the stored columns)
     for side, n in (("src", ns), ("ref", nr)):
         if n and rng.random() < 0.4:
@@ -68,7 +90,7 @@ def gen_table(rng):
             rng.shuffle(idx)          # (the constructor requires stored columns as long as the index map: a row permutation)
             stored = n
             c[side + "_idx"] = idx
-            c[side + "_stored"] = [(nm, [Fr(rng.randint(-64, 64), 8) for _ in range(stored)]) for nm, _ in c[side]]
+            c[side + "_stored"] = [(nm, [draw(rng, dts[side][nm]) for _ in range(stored)]) for nm, _ in c[side]]
             # logical columns = stored[idx]
             c[side] = [(nm, [vals[i] for i in idx]) for nm, vals in c[side + "_stored"]]
             c[side + "_rows"] = len(idx)
@@ -77,11 +99,15 @@ def gen_table(rng):
 
 def run_table(c):
     from fieldcompare.tabular import Table, TabularFields
+
+    def dt(side, n):
+        return c.get("dtypes", {}).get(side, {}).get(n, "f8")
+
     def mk(side):
         if c.get(side + "_idx") is not None:
             return TabularFields(Table(idx_map=np.array(c[side + "_idx"], dtype=np.int64)),
-                                 {n: np.array([float(v) for v in vals], dtype=float) for n, vals in c[side + "_stored"]})
-        return TabularFields(Table(num_rows=c[side + "_rows"]), {n: np.array([float(v) for v in vals], dtype=float) for n, vals in c[side]})
+                                 {n: np_col(vals, dt(side, n)) for n, vals in c[side + "_stored"]})
+        return TabularFields(Table(num_rows=c[side + "_rows"]), {n: np_col(vals, dt(side, n)) for n, vals in c[side]})
     a, b = mk("src"), mk("ref")
     d = a.diff_to(b)
     return {"rows": d.domain.number_of_rows, "fields": {f.name: impl_values(f.values) for f in d}}
@@ -103,19 +129,22 @@ def oracle_table(c):
 def gen_mesh_case(rng):
     M = G.gen_mesh(rng, max_cells=4)
     n = len(M["pts"])
-    val = lambda: Fr(rng.randint(-64, 64), 8)  # noqa: E731
     base = rng.sample(NAMES, rng.randint(1, 4))
+    dts = {"src": {nm: rng.choice(DTYPES) for nm in base}, "ref": {nm: rng.choice(DTYPES) for nm in base}}
+    for nm in base:
+        if rng.random() < 0.6:
+            dts["ref"][nm] = dts["src"][nm]
 
-    def side():
-        pf = {nm: [val() for _ in range(n)] for nm in base if rng.random() < 0.6}
-        cf = {nm: {t: [val() for _ in rows] for t, rows in M["blocks"]} for nm in base if rng.random() < 0.5}
+    def side(which):
+        pf = {nm: [draw(rng, dts[which][nm]) for _ in range(n)] for nm in base if rng.random() < 0.6}
+        cf = {nm: {t: [draw(rng, dts[which][nm]) for _ in rows] for t, rows in M["blocks"]} for nm in base if rng.random() < 0.5}
         return pf, cf
-    (ps, cs), (pr, cr) = side(), side()
+    (ps, cs), (pr, cr) = side("src"), side("ref")
     order = list(range(len(M["blocks"])))
     if rng.random() < 0.5:
         rng.shuffle(order)
     return {"kind": "mesh", "mesh": M, "src": {"pf": ps, "cf": cs}, "ref": {"pf": pr, "cf": cr},
-            "same_domain": rng.random() < 0.85, "ref_block_order": order}
+            "same_domain": rng.random() < 0.85, "ref_block_order": order, "dtypes": dts}
 
 
 def mesh_cols(c, side):
@@ -127,13 +156,19 @@ def mesh_cols(c, side):
 
 
 def run_mesh(c):
-    A = dict(c["mesh"], pf=c["src"]["pf"], cf=c["src"]["cf"])
-    B = dict(c["mesh"], pf=c["ref"]["pf"], cf=c["ref"]["cf"])
+    A = dict(c["mesh"], pf={}, cf={})
+    B = dict(c["mesh"], pf={}, cf={})
     B["blocks"] = [c["mesh"]["blocks"][i] for i in c.get("ref_block_order", range(len(c["mesh"]["blocks"])))]
     if not c["same_domain"]:
         B = G.copy_mesh(B)
         B["pts"][0][0] += 1000
-    a, b = G.to_fieldcompare(A), G.to_fieldcompare(B)
+
+    def arrays(side, X):
+        dts = c.get("dtypes", {}).get(side, {})
+        pd = {nm: np_col(vals, dts.get(nm, "f8")) for nm, vals in c[side]["pf"].items()}
+        cd = {nm: [np_col(per[t], dts.get(nm, "f8")) for t, _ in X["blocks"]] for nm, per in c[side]["cf"].items()}
+        return pd, cd
+    a, b = G.to_fieldcompare(A, *arrays("src", A)), G.to_fieldcompare(B, *arrays("ref", B))
     try:
         d = a.diff_to(b)
     except RuntimeError as e:
@@ -239,7 +274,10 @@ def run(ctx):
     q = ctx.tier == "quick"
     rng = ctx.rng
     n = 1200 if q else 30000
-    cases = [gen_table(rng) if rng.random() < 0.5 else gen_mesh_case(rng) for _ in range(n)]
+    cases = [restore_table(lib.json.loads(f.read_text())["case"]) for f in sorted((lib.VERIF / "corpus" / "C14").glob("found-*.json"))]
+    cases = [c for c in cases if c is not None]
+    ctx.count("corpus cases", len(cases))
+    cases += [gen_table(rng) if rng.random() < 0.5 else gen_mesh_case(rng) for _ in range(n)]
     exprs, nms = [], []
     for c in cases:
         if c["kind"] == "table":
@@ -290,12 +328,36 @@ def run(ctx):
     for i in range(60 if q else 1500):
         cli_diff_case(ctx, rng, str(ctx.workdir), i)
     ctx.rule = ("tabular pairs (0-4 rows per side, overlapping column sets) and mesh pairs (same mesh or a moved point; overlapping "
-                "point and cell field sets on 1-3 cell types) with arbitrary dyadic values; CLI --diff on relabeled meshes with one "
+                "point and cell field sets on 1-3 cell types) with arbitrary dyadic values of the numeric types float64/float32/"
+                "int64/int32/int8/uint8/uint16/uint64 (the two sides of a field may differ in type; integer extremes included); CLI --diff on relabeled meshes with one "
                 "known field delta. non-trivial = the two sides have different field sets")
     return ctx.finish(assumptions=["values are dyadic so that reference - source is exact in binary64"],
                       trusted=["harness/c14.py (incl. its independent decoder of the written .vtu)"])
 
 
+def restore_table(c):
+    """a tabular case from its JSON form (values back to exact numbers)"""
+    if not c or c.get("kind") != "table":
+        return None
+    c = dict(c)
+
+    def num(v):
+        return Fr(v) if isinstance(v, str) else v
+    for key in ("src", "ref", "src_stored", "ref_stored"):
+        if c.get(key) is not None:
+            c[key] = [(n, [num(v) for v in vals]) for n, vals in c[key]]
+    return c
+
+
 def replay(pid, rec):
-    print("re-run ./check C14 quick with the same VERIF_SEED to reproduce:", rec["what"])
+    c = restore_table(rec.get("case"))
+    if c is None:
+        print("re-run ./check C14 quick with the same VERIF_SEED to reproduce:", rec["what"])
+        return False
+    with warnings.catch_warnings():
+        warnings.simplefilter("ignore")
+        im, orc = run_table(c), oracle_table(c)
+    print("diff_to:", {k: [str(x) for x in v] for k, v in im["fields"].items()})
+    print("reference - source:", {k: [str(x) for x in v] for k, v in orc["fields"].items()})
+    return im["fields"] == orc["fields"] and im["rows"] == orc["rows"]
     return False
